@@ -279,3 +279,59 @@ func lexerErrorsPositioned(r *core.Run) {
 	})
 	r.Floor("R-POS/lexerr", 5, "error returns of NextToken, lexNumber, lexString, lexRegex, lexEscape")
 }
+
+// lexerSeesCallersText (R-POS/samesource): positions are line and column
+// numbers counted by the lexer over the text it holds; the caller (ParseFile,
+// the formatter, errpos.AddSource which prints the offending line) interprets
+// them in the text it passed. The two agree only if they are the same text:
+// NewLexer stores its string parameter converted to runes and nothing else —
+// a normalisation (line endings, tabs, BOM) in between makes every position
+// after the first rewritten character one of another text.
+func lexerSeesCallersText(r *core.Run) {
+	r.Rule("R-POS/samesource", "in every function of the parser package that builds a Lexer literal, the value of each []rune field is []rune(<p>) (or <p>) with <p> a string parameter of that function, unchanged: no call, replacement or slice of the input lies between the caller's text and the text positions are counted in")
+	pk := r.P.Pkg(parserRel)
+	if pk == nil {
+		r.Fatal("anchor: package %s not found", parserRel)
+		return
+	}
+	info := pk.TypesInfo
+	core.AllFuncDecls(pk, func(fd *ast.FuncDecl) {
+		if fd.Body == nil {
+			return
+		}
+		params := map[types.Object]bool{}
+		for _, f := range fd.Type.Params.List {
+			for _, nm := range f.Names {
+				params[info.ObjectOf(nm)] = true
+			}
+		}
+		ast.Inspect(fd.Body, func(n ast.Node) bool {
+			cl, ok := n.(*ast.CompositeLit)
+			if !ok || !strings.HasSuffix(core.TypeStr(info.TypeOf(cl)), "parser.Lexer") {
+				return true
+			}
+			for _, el := range cl.Elts {
+				kv, ok := el.(*ast.KeyValueExpr)
+				if !ok {
+					continue
+				}
+				sl, ok := info.TypeOf(kv.Value).Underlying().(*types.Slice)
+				if !ok || core.TypeStr(sl.Elem()) != "rune" && core.TypeStr(sl.Elem()) != "int32" {
+					continue
+				}
+				o := r.Add("R-POS/samesource", parserRel+"."+core.FuncName(fd)+" | lexer text is the caller's text", kv.Pos(), "text held by the lexer")
+				v := core.Unparen(kv.Value)
+				if c, ok := v.(*ast.CallExpr); ok && core.IsConversion(info, c) && len(c.Args) == 1 {
+					v = core.Unparen(c.Args[0])
+				}
+				if id, ok := v.(*ast.Ident); ok && params[info.ObjectOf(id)] {
+					o.Auto("[]rune(%s), the parameter as it is", id.Name)
+				} else {
+					o.Fail("the lexer holds %s, not the caller's text: every line and column it reports is a position in the rewritten text, while ParseFile hands the original to errpos.AddSource and returns the positions to the caller — after the first rewritten character they point at other (or no) characters", core.ExprStr(kv.Value))
+				}
+			}
+			return true
+		})
+	})
+	r.Floor("R-POS/samesource", 1, "Lexer literal with a []rune field")
+}
